@@ -29,6 +29,46 @@ def storm_script(rng, n, k):
     return {"config": cfg, "histories": hists}
 
 
+def share_config(rng):
+    """large allowed counts with arbitrary integer percentages (incl. those whose float product lands just off an integer):
+    the share is reached only by bursts of many requests"""
+    cfg = {"groups": ["a", "b", "u"], "W": {"r1": rng.choice([2, 4])}, "Allowed": {"r1": rng.choice([10, 25, 50, 75, 100, 100, 200])},
+           "Pct": {"r1": {"a": rng.choice([7, 14, 28, 29, 55, 56, 57, 58, rng.randint(1, 99)]), "b": rng.randint(0, 100), "u": -1}},
+           "DefBehav": {"r1": rng.choice(["use_default", "allow", "block"])}, "DefPct": {"r1": rng.choice([0, 33, 100])}}
+    return cfg
+
+
+def share_history(rng, cfg):
+    now = rng.randint(1, 9)
+    h = [{"ev": "reset", "now": now}]
+    a = cfg["Allowed"]["r1"]
+    for g in rng.sample(["a", "b", "u"], 3):
+        h.append({"ev": "burst", "r": "r1", "g": g, "n": a + 3})
+    h.append({"ev": "adv", "d": cfg["W"]["r1"]})
+    h.append({"ev": "burst", "r": "r1", "g": rng.choice(["a", "b"]), "n": a // 2 + 2})
+    return h
+
+
+# configurations every run must contain (input classes a random draw could miss): a listed group with a 0 % share under every
+# default behaviour, an unlisted group under every default behaviour, an ungrouped remedy
+def class_configs():
+    out = []
+    for db in ("allow", "undefined", "block", "use_default"):
+        out.append({"groups": ["a", "b", "u", "A", "a "], "W": {"r1": 2}, "Allowed": {"r1": 2},
+                    "Pct": {"r1": {"a": 0, "b": 50, "u": -1, "A": -1, "a ": -1}}, "DefBehav": {"r1": db}, "DefPct": {"r1": 50}})
+    return out
+
+
+def class_history(rng, cfg):
+    h = [{"ev": "reset", "now": rng.randint(1, 5)}]
+    for g in ("a", "a", "b", "b", "u", "u", "u", "A", "a "):
+        h.append({"ev": "req", "r": "r1", "g": g})
+    h.append({"ev": "adv", "d": 2})
+    for g in ("a", "u", "b"):
+        h.append({"ev": "req", "r": "r1", "g": g})
+    return h
+
+
 def rand_config(rng, thorough):
     rems = ["r1", "r2"][: rng.choice([1, 2, 2])]
     # group header values: two listed ones, an unknown one, and spelling variants of a listed one (distinct groups)
@@ -87,7 +127,7 @@ def script_of_history(hist):
             continue
         elif e["ev"] == "batch":
             conc = None
-            out.append({"ev": "storm", "r": e["r"], "g": e["g"], "n": e["n"]})
+            out.append({"ev": "storm" if e["g"].startswith("g") and e["g"][1:].isdigit() else "burst", "r": e["r"], "g": e["g"], "n": e["n"]})
         else:
             conc = None
             out.append({k: v for k, v in e.items() if k != "out"})
@@ -226,6 +266,11 @@ def run(ctx):
         cfg = rand_config(ctx.rng, T)
         scripts.append({"config": cfg, "histories": [rand_history(ctx.rng, cfg, hl, conc=(i % 2 == 1)) for i in range(nh)]})
     scripts.append(storm_script(ctx.rng, 3000 if not T else 30000, 8))
+    for cfg in class_configs():
+        scripts.append({"config": cfg, "histories": [class_history(ctx.rng, cfg) for _ in range(3)]})
+    for _ in range(8 if not T else 60):
+        cfg = share_config(ctx.rng)
+        scripts.append({"config": cfg, "histories": [share_history(ctx.rng, cfg) for _ in range(2)]})
     traces = execute(ctx, binary, scripts, "rand")
     ctx.sample({"kind": "recorded-trace", "events": traces[0][:14]})
     judge(ctx, binary, traces, "rand", seen)
